@@ -10,9 +10,9 @@
 //! 32-bit word at E[sp] + o equals R'[q].
 
 use crate::mk::{self, Kind};
-use crate::ob_props::{draw_regs, meaning};
+use crate::ob_props::meaning;
 use crate::ob_regs::{ARG, RA, SAVED, SP};
-use crate::rvref::{self, RInst, Regs, Width};
+use crate::rvref::{self, RInst, RegRead, Width, RF};
 use crate::src::Src;
 use riscv_analysis::analysis::{AvailableValue, HasGenValueInfo, MemoryLocation};
 use riscv_analysis::cfg::AvailableValueMap;
@@ -41,20 +41,44 @@ pub fn store_result(width: Width, old: u32, v: u32) -> u32 {
 }
 
 /// gamma for a register fact; None = a variant the property makes no claim about.
-pub fn gamma_reg(v: &AvailableValue, r: u8, entry: &Regs, cur: &Regs) -> Option<bool> {
+pub fn gamma_reg<E: RegRead, C: RegRead>(v: &AvailableValue, r: u8, entry: &E, cur: &C) -> Option<bool> {
     match v {
         AvailableValue::Constant(c) => Some(cur.get(r) == *c as u32),
         AvailableValue::OriginalRegisterWithScalar(q, k) => Some(cur.get(r) == entry.get(q.to_num()).wrapping_add(*k as u32)),
         AvailableValue::Address(_) => Some(cur.get(r) == LA_ADDR),
+        // "r holds the CURRENT value of q plus k" (how a value restored from a stack slot is described)
+        AvailableValue::RegisterWithScalar(q, k) => Some(cur.get(r) == cur.get(q.to_num()).wrapping_add(*k as u32)),
         _ => None,
     }
 }
 
-fn gen_reg<S: Src>(s: &mut S, kind: Kind) {
-    let f = mk::draw_fields(s, kind);
+/// Symbolic register file binding the given registers (and one shared value for all others).
+pub fn draw_rf<S: Src>(s: &mut S, keys: &[u8]) -> RF {
+    let mut rf = RF::new(s.u32());
+    let mut i = 0;
+    while i < keys.len() && i < 6 {
+        let v = s.u32();
+        rf.set(keys[i], v);
+        i += 1;
+    }
+    rf
+}
+
+/// `zero_sources`: fix rs1 = rs2 = x0 (the only shape for which register-form
+/// arithmetic generates a fact; with concrete zero operands the reference ALU
+/// folds per operator instead of building multiplier/divider circuits).
+fn gen_reg<S: Src>(s: &mut S, kind: Kind, zero_sources: bool) {
+    let mut f = mk::draw_fields(s, kind);
+    if zero_sources {
+        f.rs1 = 0;
+        f.rs2 = 0;
+    } else if kind == Kind::Arith {
+        s.assume(f.rs1 != 0 || f.rs2 != 0);
+    }
     let node = mk::build(&f);
-    let entry = draw_regs(s);
-    let pre = draw_regs(s);
+    let keys = [f.rd, f.rs1, f.rs2];
+    let entry = draw_rf(s, &keys);
+    let pre = draw_rf(s, &keys);
     let word = s.u32(); // the aligned memory word a load addresses
     let g = node.gen_reg_value();
     if let (Some((reg, val)), Some(ri)) = (&g, meaning(&f, LA_ADDR)) {
@@ -62,7 +86,11 @@ fn gen_reg<S: Src>(s: &mut S, kind: Kind) {
         assert!(*reg != Register::X0, "[C01] a fact is generated for x0");
         assert!(Some(reg.to_num()) == rvref::arch_writes(&ri), "[C01] fact generated for a register the instruction does not write");
         let mut post = pre;
-        let eff = rvref::effect(&ri, &pre, 0x400);
+        let eff = if kind == Kind::Arith && !zero_sources {
+            rvref::effect(&RInst::System, &pre, 0x400)
+        } else {
+            rvref::effect(&ri, &pre, 0x400)
+        };
         let written = match ri {
             RInst::Load { width, signed, .. } => load_result(width, signed, word),
             _ => eff.rd_value.unwrap_or(word),
@@ -84,6 +112,9 @@ fn gen_reg<S: Src>(s: &mut S, kind: Kind) {
     if g.is_none() {
         crate::seen!(true, "I:no fact generated");
     }
+    if kind == Kind::Arith && !zero_sources {
+        assert!(g.is_none(), "[C01] register-form arithmetic on unknown operands generates a fact");
+    }
     crate::witness!(true, "W:end");
     core::mem::forget((node, g));
 }
@@ -91,7 +122,7 @@ fn gen_reg<S: Src>(s: &mut S, kind: Kind) {
 fn gen_mem_store<S: Src>(s: &mut S) {
     let f = mk::draw_fields(s, Kind::Store);
     let node = mk::build(&f);
-    let pre = draw_regs(s);
+    let pre = draw_rf(s, &[f.rs1, f.rs2]);
     let old_word = s.u32();
     let g = node.gen_memory_value();
     let ri = meaning(&f, LA_ADDR);
@@ -121,7 +152,6 @@ fn gen_mem_csr<S: Src>(s: &mut S, kind: Kind) {
     // csrrw: CSR := R[rs1];  csrrwi: CSR := uimm.  Other CSR ops must not claim the CSR content.
     let f = mk::draw_fields(s, kind);
     let node = mk::build(&f);
-    let pre = draw_regs(s);
     let g = node.gen_memory_value();
     if let Some((loc, val)) = &g {
         crate::seen!(true, "I:a CSR fact is generated");
@@ -137,7 +167,6 @@ fn gen_mem_csr<S: Src>(s: &mut S, kind: Kind) {
             _ => assert!(false, "[C01] unexpected kind of CSR fact"),
         }
     }
-    let _ = pre;
     crate::witness!(true, "W:end");
     core::mem::forget((node, g));
 }
@@ -151,16 +180,12 @@ fn gen_mem_none<S: Src>(s: &mut S, kind: Kind) {
     core::mem::forget((node, g));
 }
 
-/// Seeding: `set.into_available_values()` is exactly r -> OriginalRegisterWithScalar(r, 0).
+/// Seeding: `set.into_available_values()` is exactly r -> OriginalRegisterWithScalar(r, 0)
+/// (the two small seed sets of the transfer function; probe register symbolic).
 fn seeding<S: Src>(s: &mut S) {
-    let which = s.choice(3);
+    let which = s.bool();
     let r = s.reg();
-    let (set, mask) = match which {
-        0 => (Register::callee_saved_set(), SAVED | RA | SP),
-        1 => (Register::sp_ra_set(), RA | SP),
-        _ => (Register::all_writable_set(), !1u32),
-    };
-    let _ = ARG;
+    let (set, mask) = if which { (Register::sp_ra_set(), RA | SP) } else { (Register::program_args_set(), 0b11 << 10) };
     let map = set.into_available_values();
     let reg = mk::reg(r);
     match map.get(&reg) {
@@ -171,43 +196,42 @@ fn seeding<S: Src>(s: &mut S) {
         Some(_) => assert!(false, "[C01] seeded value is not 'original register + 0'"),
         None => assert!((mask >> r) & 1 == 0, "[C01] register of the set was not seeded"),
     }
+    assert!(map.len() == 2, "[C01] seeding yields a different number of facts than registers");
+    let _ = (ARG, SAVED);
     crate::witness!(true, "W:end");
     core::mem::forget(map);
 }
 
 /// A small map on concrete registers with symbolic payloads.
 fn draw_value<S: Src>(s: &mut S) -> AvailableValue {
-    let k = s.choice(4);
+    let k = s.choice(3);
     let x = s.i32();
-    let q = s.choice(3);
-    let qreg = [Register::X2, Register::X8, Register::X5][q as usize % 3];
+    let qreg = if s.bool() { Register::X2 } else { Register::X8 };
     match k {
         0 => AvailableValue::Constant(x),
         1 => AvailableValue::OriginalRegisterWithScalar(qreg, x),
-        2 => AvailableValue::RegisterWithScalar(qreg, x),
-        _ => AvailableValue::MemoryAtOriginalRegister(qreg, x),
+        _ => AvailableValue::RegisterWithScalar(qreg, x),
     }
 }
 
 /// Meet: `a &= &b` keeps exactly the keys bound to EQUAL values in both maps.
 fn meet<S: Src>(s: &mut S) {
-    let keys = [Register::X2, Register::X5, Register::X10];
+    let keys = [Register::X2, Register::X5];
     let mut a: AvailableValueMap<Register> = AvailableValueMap::new();
     let mut b: AvailableValueMap<Register> = AvailableValueMap::new();
     let mut i = 0;
-    while i < 3 {
-        if s.bool() {
-            a.insert(keys[i], draw_value(s));
-        }
-        if s.bool() {
-            b.insert(keys[i], draw_value(s));
-        }
-        i += 1;
+    a.insert(keys[0], draw_value(s));
+    b.insert(keys[0], draw_value(s));
+    if s.bool() {
+        a.insert(keys[1], AvailableValue::Constant(s.i32()));
+    }
+    if s.bool() {
+        b.insert(keys[1], AvailableValue::Constant(s.i32()));
     }
     let a0 = a.clone();
     a &= &b;
     let mut i = 0;
-    while i < 3 {
+    while i < 2 {
         let k = keys[i];
         let both_equal = match (a0.get(&k), b.get(&k)) {
             (Some(x), Some(y)) => x == y,
@@ -230,21 +254,19 @@ fn meet<S: Src>(s: &mut S) {
 
 /// `map -= registers` removes exactly those keys (the kill step of the transfer function).
 fn kill_step<S: Src>(s: &mut S) {
-    let keys = [Register::X2, Register::X5, Register::X10];
+    let keys = [Register::X2, Register::X5];
     let mut a: AvailableValueMap<Register> = AvailableValueMap::new();
     let mut i = 0;
-    while i < 3 {
-        if s.bool() {
-            a.insert(keys[i], draw_value(s));
-        }
-        i += 1;
+    a.insert(keys[0], draw_value(s));
+    if s.bool() {
+        a.insert(keys[1], AvailableValue::Constant(s.i32()));
     }
     let a0 = a.clone();
     let r = s.reg();
     let set = riscv_analysis::cfg::RegisterSet::from_register(mk::reg(r));
     a -= set.iter();
     let mut i = 0;
-    while i < 3 {
+    while i < 2 {
         let k = keys[i];
         if k.to_num() == r {
             assert!(a.get(&k).is_none(), "[C01] kill leaves a fact about the overwritten register");
@@ -259,59 +281,62 @@ fn kill_step<S: Src>(s: &mut S) {
 
 crate::obligations! {
     #[kani::stub(uuid::Uuid::new_v4, crate::stubs::uuid_counter)]
-    #[kani::unwind(34)]
-    fn gen_reg_arith(s) { gen_reg(s, Kind::Arith) }
+    #[kani::unwind(9)]
+    fn gen_reg_arith(s) { gen_reg(s, Kind::Arith, false) }
     #[kani::stub(uuid::Uuid::new_v4, crate::stubs::uuid_counter)]
-    #[kani::unwind(34)]
-    fn gen_reg_iarith(s) { gen_reg(s, Kind::IArith) }
+    #[kani::unwind(9)]
+    fn gen_reg_arith_zero(s) { gen_reg(s, Kind::Arith, true) }
     #[kani::stub(uuid::Uuid::new_v4, crate::stubs::uuid_counter)]
-    #[kani::unwind(34)]
-    fn gen_reg_load(s) { gen_reg(s, Kind::Load) }
+    #[kani::unwind(9)]
+    fn gen_reg_iarith(s) { gen_reg(s, Kind::IArith, false) }
     #[kani::stub(uuid::Uuid::new_v4, crate::stubs::uuid_counter)]
-    #[kani::unwind(34)]
-    fn gen_reg_la(s) { gen_reg(s, Kind::La) }
+    #[kani::unwind(9)]
+    fn gen_reg_load(s) { gen_reg(s, Kind::Load, false) }
     #[kani::stub(uuid::Uuid::new_v4, crate::stubs::uuid_counter)]
-    #[kani::unwind(34)]
-    fn gen_reg_jal(s) { gen_reg(s, Kind::Jal) }
+    #[kani::unwind(9)]
+    fn gen_reg_la(s) { gen_reg(s, Kind::La, false) }
     #[kani::stub(uuid::Uuid::new_v4, crate::stubs::uuid_counter)]
-    #[kani::unwind(34)]
-    fn gen_reg_jalr(s) { gen_reg(s, Kind::Jalr) }
+    #[kani::unwind(9)]
+    fn gen_reg_jal(s) { gen_reg(s, Kind::Jal, false) }
     #[kani::stub(uuid::Uuid::new_v4, crate::stubs::uuid_counter)]
-    #[kani::unwind(34)]
-    fn gen_reg_csr(s) { gen_reg(s, Kind::Csr) }
+    #[kani::unwind(9)]
+    fn gen_reg_jalr(s) { gen_reg(s, Kind::Jalr, false) }
     #[kani::stub(uuid::Uuid::new_v4, crate::stubs::uuid_counter)]
-    #[kani::unwind(34)]
-    fn gen_reg_csri(s) { gen_reg(s, Kind::CsrI) }
+    #[kani::unwind(9)]
+    fn gen_reg_csr(s) { gen_reg(s, Kind::Csr, false) }
     #[kani::stub(uuid::Uuid::new_v4, crate::stubs::uuid_counter)]
-    #[kani::unwind(34)]
-    fn gen_reg_store(s) { gen_reg(s, Kind::Store) }
+    #[kani::unwind(9)]
+    fn gen_reg_csri(s) { gen_reg(s, Kind::CsrI, false) }
     #[kani::stub(uuid::Uuid::new_v4, crate::stubs::uuid_counter)]
-    #[kani::unwind(34)]
-    fn gen_reg_branch(s) { gen_reg(s, Kind::Branch) }
+    #[kani::unwind(9)]
+    fn gen_reg_store(s) { gen_reg(s, Kind::Store, false) }
+    #[kani::stub(uuid::Uuid::new_v4, crate::stubs::uuid_counter)]
+    #[kani::unwind(9)]
+    fn gen_reg_branch(s) { gen_reg(s, Kind::Branch, false) }
 
     #[kani::stub(uuid::Uuid::new_v4, crate::stubs::uuid_counter)]
-    #[kani::unwind(34)]
+    #[kani::unwind(9)]
     fn gen_mem_store_sp(s) { gen_mem_store(s) }
     #[kani::stub(uuid::Uuid::new_v4, crate::stubs::uuid_counter)]
-    #[kani::unwind(34)]
+    #[kani::unwind(9)]
     fn gen_mem_csrrw(s) { gen_mem_csr(s, Kind::Csr) }
     #[kani::stub(uuid::Uuid::new_v4, crate::stubs::uuid_counter)]
-    #[kani::unwind(34)]
+    #[kani::unwind(9)]
     fn gen_mem_csrrwi(s) { gen_mem_csr(s, Kind::CsrI) }
     #[kani::stub(uuid::Uuid::new_v4, crate::stubs::uuid_counter)]
-    #[kani::unwind(34)]
+    #[kani::unwind(9)]
     fn gen_mem_none_arith(s) { gen_mem_none(s, Kind::Arith) }
     #[kani::stub(uuid::Uuid::new_v4, crate::stubs::uuid_counter)]
-    #[kani::unwind(34)]
+    #[kani::unwind(9)]
     fn gen_mem_none_load(s) { gen_mem_none(s, Kind::Load) }
     #[kani::stub(uuid::Uuid::new_v4, crate::stubs::uuid_counter)]
-    #[kani::unwind(34)]
+    #[kani::unwind(9)]
     fn gen_mem_none_jal(s) { gen_mem_none(s, Kind::Jal) }
 
     #[kani::unwind(34)]
     fn gen_seeding(s) { seeding(s) }
     #[kani::unwind(8)]
     fn gen_meet(s) { meet(s) }
-    #[kani::unwind(34)]
+    #[kani::unwind(8)]
     fn gen_kill_step(s) { kill_step(s) }
 }
